@@ -265,6 +265,8 @@ def gen_hist(rng):
     if rng.random() < 0.35:
         t = gen_text(rng, ("\r",))
         init = (BOM.decode("latin-1") if rng.random() < 0.3 else "") + t.encode(enc if encodable(t, enc) else "utf-8").decode("latin-1")
+    if rng.random() < 0.03:   # corner of the incremental utf-8-sig decoder: a file that is a prefix of the BOM
+        init = BOM.decode("latin-1")[: rng.choice([1, 2, 3])] + rng.choice(["", "", "a"])
     ops = []
     eol = rng.choice(EOLS * 6 + ["", "é|", "é|", "é|", "\r\r", "\r\r"])
     exists = init is not None
@@ -570,6 +572,11 @@ def run(ctx):
     # ---- B1: histories on a real file
     rng = ctx.rng("hist")
     hs = [gen_hist(rng) for _ in range(n)]
+    # minimised past disagreements (model repaired): text-mode read of a strict prefix of the BOM
+    for pre in ("\xef", "\xef\xbb"):
+        for enc in ENCODINGS:
+            hs.append({"init": pre, "ops": [{"op": "F", "enc": enc, "mode": "t", "eol": "\n"}, {"op": "N", "enc": enc, "mode": "t", "eol": None},
+                                           {"op": "F", "enc": enc, "mode": "t", "eol": "|"}, {"op": "S", "enc": enc, "mode": "at", "eol": "\n", "payload": {"k": "str", "v": "a"}}]})
     ctx.correspond("files.hist", hs, hist_line, hist_impl, nontrivial=lambda c: any(op["op"] == "S" for op in c["ops"]))
     # ---- C: the statement
     rng = ctx.rng("prop")
